@@ -600,11 +600,20 @@ def run_c04(ctx):
             with open(bpath, "w", encoding="utf-8") as fh:
                 fh.write(bad)
             bcst = parse_uvl(bpath)
+            reader = UVLReader(bpath)
             try:
-                UVLReader(bpath).transform()
+                reader.transform()
                 outcome = "returned-a-model"
             except Exception as e:  # noqa: BLE001
                 outcome = "raised " + spec.exn_name(e)
+            if outcome.startswith("raised"):
+                # the same reader object asked again: the document has not become valid in between
+                try:
+                    reader.transform()
+                    p.oracle_fail("invalid", sx.dumps(bad), "syntax-error-not-raised",
+                                  "second transform() on the same reader returned a model")
+                except Exception:  # noqa: BLE001
+                    pass
             expected = "raised FlamaException" if bcst is None else outcome
             p.record("invalid", sx.dumps(bad), outcome, expected)
             if bcst is None and not outcome.startswith("raised"):
